@@ -300,17 +300,30 @@ pub fn file_safe_pattern(p: &str) -> bool {
 pub fn exclude_of(pats: &[String]) -> conserve::Result<Exclude> {
     if let Some(file) = EXCLUDE_FILE.with(|c| c.borrow().clone()) {
         let (in_file, direct): (Vec<&String>, Vec<&String>) = pats.iter().partition(|p| file_safe_pattern(p));
-        let mut text = String::from("# patterns\n\n");
-        for (i, p) in in_file.iter().enumerate() {
-            text.push_str(if i % 2 == 0 { "" } else { "  " });
-            text.push_str(p);
-            text.push_str(if i % 3 == 0 { " \n" } else { "\n" });
-            if i % 2 == 1 {
-                text.push_str("   \n#x\n");
+        // up to three files; patterns dealt round-robin; comment lines, blank lines and
+        // surrounding blanks in between; every other file ends without a newline
+        let nfiles = in_file.len().clamp(1, 3);
+        let mut files = vec![];
+        for j in 0..nfiles {
+            let mut text = String::from(if j == 1 { "" } else { "# patterns\n\n" });
+            let mine: Vec<&&String> = in_file.iter().skip(j).step_by(nfiles).collect();
+            for (i, p) in mine.iter().enumerate() {
+                let last = i + 1 == mine.len();
+                text.push_str(if (i + j) % 2 == 0 { "" } else { "  " });
+                text.push_str(p);
+                if last && j % 2 == 0 {
+                    break; // no newline at the end of this file
+                }
+                text.push_str(if i % 3 == 0 { " \n" } else { "\n" });
+                if i % 2 == 1 {
+                    text.push_str("   \n#x\n");
+                }
             }
+            let path = file.with_extension(format!("{j}"));
+            std::fs::write(&path, text).expect("write pattern file");
+            files.push(path);
         }
-        std::fs::write(&file, text).expect("write pattern file");
-        return Exclude::from_patterns_and_files(direct, [file]);
+        return Exclude::from_patterns_and_files(direct, files);
     }
     if pats.is_empty() {
         Ok(Exclude::nothing())
